@@ -14,12 +14,13 @@ RULE = ("grammar-generated task programs (profiles %s; trees and DAGs of tasks, 
         "and raising flushes, nested yield structures, errors, try/except, synchronous re-entry, contexts) interpreted on "
         "the real scheduler and replayed in the Lean machine with the implementation's flush choices; non-trivial = at "
         "least 2 tasks and 1 scheduler flush; distinct by hash of (configuration, programs)" % (", ".join(p for p, _ in MIX)))
-TRUSTED = cc.TRUSTED_CORE
+RULE += cc.ASYNCIO_RULE
+TRUSTED = cc.TRUSTED_CORE + cc.TRUSTED_ASYNCIO
 ASSUMPTIONS = cc.ASSUMPTIONS_CORE
 
 
 def extra(tier, rng):
-    return cc.exotic_cases()
+    return cc.exotic_cases() + cc.asyncio_cases(PID, tier, cc.fork(rng, "aio"))
 
 
 def plan(tier, seed):
